@@ -218,6 +218,12 @@ namespace options
             return true;
         }
 
+        if (has_short_name() && arg.is_short())
+        {
+            // toggles can be bundled, e.g., -ab
+            return arg.as_short_list().count(short_name());
+        }
+
         return base::matches(arg);
     }
 } // namespace options
